@@ -99,7 +99,7 @@ class C01(core.Check):
             'categorical / timestamp) over numerical, categorical (str and int values), multicategorical (sep-joined '
             'with padding / list-valued, repeated and empty tokens), sequence_numerical (NaN entries, []), timestamp '
             '(1700-2200, 8 explicit formats + auto, datetime64[s|ms|us|ns], unparseable strings), embedding (width 1-5, '
-            'list / ndarray) and text_/image_embedded (deterministic stub embedder, batch sizes None/1/2/5); missing '
+            'list / ndarray, missing cells) and text_/image_embedded (deterministic stub embedder, batch sizes None/1/2/5); missing '
             'rates 0-60% incl. all-missing columns; every string column in object or str dtype, None or NaN as the '
             'missing marker, nullable / numpy numeric dtypes; 30% of the frames carry a non-default index. Rendered to '
             'pandas, Dataset(...).materialize(); every cell read through feat_dict, get_col_feat and y and compared '
@@ -115,8 +115,8 @@ class C01(core.Check):
         'the tie order inside value_counts is not modelled: the model takes the observed category list and checks '
         'it is a duplicate-free enumeration of the distinct values in non-increasing count order',
         'text_tokenized columns (dictionaries of token tensors) are not part of this check',
-        'a missing cell in a plain embedding column (no embedder) raises in np.stack: open finding '
-        "'embedding-missing-cell' (F11), probed in extra_checks",
+        'a plain embedding column without a single non-missing vector has no width and still raises: outside the '
+        'domain (every generated embedding column keeps at least one vector)',
     )
     assumptions = ('float payloads are float32-exact, so the float32 cast of the numerical mapper is the identity',)
 
@@ -221,7 +221,6 @@ class C01(core.Check):
     def extra_checks(self, rng, tier, report):
         self.calendar_sweep(rng, tier, report)
         self.pipeline_labels(rng, tier, report)
-        self.f11_probe(report)
 
     def calendar_sweep(self, rng, tier, report):
         """Lean calendar vs Python datetime on epoch seconds 0001-2400 (boundaries of every year + random)"""
@@ -297,31 +296,6 @@ class C01(core.Check):
                 lab_broken += 1
         report['extra']['multicat_pipeline'] = {'cases': len(reqs), 'model_disagreements': bad,
                                                 'label_consulting_variant_wrong_on': lab_broken}
-
-    def f11_probe(self, report):
-        """open finding F11: a missing cell in a plain embedding column"""
-        import pandas as pd
-        import torch_frame
-        from torch_frame.data import Dataset
-        df = pd.DataFrame({'e': pd.Series([[1.0, 2.0], None, [5.0, 6.0]], dtype=object), 'x': [1.0, 2.0, 3.0]})
-        try:
-            ds = Dataset(df, {'e': torch_frame.embedding, 'x': torch_frame.numerical}).materialize()
-            got = ds.tensor_frame.feat_dict[torch_frame.embedding].values.tolist()
-            ok = got[0] == [1.0, 2.0] and got[2] == [5.0, 6.0] and all(x != x for x in got[1])
-            report['extra']['f11_embedding_missing_cell'] = 'encoded as NaN vector' if ok else f'unexpected {got}'
-            if not ok:
-                report['violations'].append(core.Violation(
-                    'embedding-missing-cell', 'missing cell in a plain embedding column is not encoded as NaN',
-                    {'e': [[1.0, 2.0], None, [5.0, 6.0]]}, 'row 1 = [nan, nan]', got))
-        except Exception as e:   # noqa
-            report['extra']['f11_embedding_missing_cell'] = f'raises {type(e).__name__}'
-            report['violations'].append(core.Violation(
-                'embedding-missing-cell',
-                'EmbeddingTensorMapper(embedder=None): a missing cell in a plain embedding column makes '
-                'materialize() raise (np.stack) instead of encoding the cell as NaN',
-                {'df': {'e': [[1.0, 2.0], None, [5.0, 6.0]], 'x': [1.0, 2.0, 3.0]},
-                 'col_to_stype': {'e': 'embedding', 'x': 'numerical'}},
-                'row 1 of the embedding column = [nan, nan]', f'{type(e).__name__}: {str(e)[:200]}'))
 
 
 CHECK = C01()
